@@ -118,6 +118,8 @@ def auto_replay(v, path):
     """replay file of either engine"""
     if "# route B (callback):" in open(path).read():
         return routes_replay(v, path)
+    if snap_suite.MC_CLOCK_MARK in open(path).read():
+        return snap_suite.mc_clock_replay(v, path)
     lines = [l.strip() for l in open(path) if l.strip() and not l.startswith("#")]
     if lines and all(l.split()[0] in ("pm", "pt", "rm", "pop", "ct", "cp", "cfg", "mode", "avail") for l in lines[:3]):
         return store_suite.replay(v, path)
@@ -244,9 +246,9 @@ PROPS = {
             "partial": "pickle, deepcopy, PyO3 conversions and JSON text are runtime behaviour covered by the correspondence runs only"},
     "C19": {"ready": True, "replay": mc_checks.replay, "suites": [pred_check],
             "partial": "state_depth_current_run is proved only in its sound half (finding D11); time_limit (wall clock) is outside the model"},
-    "C02": {"ready": True, "partial": PARTIAL_D1, "replay": mc_checks.replay,
+    "C02": {"ready": True, "partial": PARTIAL_D1, "replay": auto_replay,
             "suites": [mc("mc_paths", dict(collect_always=True, depth=(2, 4), caches=("full", "disabled"), staged=0.35, staged3=0.6), refenum=True,
-                          extra_gen=mc_checks.gen_order_sensitive)]},
+                          extra_gen=mc_checks.gen_order_sensitive), snap_suite.mc_clock_probe]},
     "C03": {"ready": True, "partial": PARTIAL_D1, "replay": auto_replay,
             "suites": [mc("mc_exhaustive", dict(depth=(2, 4), staged=0.25, p_link=0.3, p_fault=0.45, p_send=0.5), refenum=True, cross=mc_checks.COMBOS, n_quick=250, extra_gen=mc_checks.gen_staged_gate)]},
     "C07": {"ready": True, "partial": PARTIAL_D1, "replay": auto_replay,
